@@ -68,7 +68,7 @@ func (h *Handshake) Decode(_ *proto.PacketContext, rd io.Reader) (err error) {
 	if err != nil {
 		return err
 	}
-	h.Port = int(port)
+	h.Port = int(uint16(port)) // the port is an unsigned short on the wire
 	h.NextStatus, err = util.ReadVarInt(rd)
 	return err
 }
